@@ -254,6 +254,9 @@ def handleTbl (t : Tbl) : List String → Option (Tbl × String)
   | ["transpose"] =>
     let t' := tblTranspose t
     some (t', encState t')
+  | ["optimize"] =>
+    let t' := tblOptimize t
+    some (t', encState t')
   | _ => none
 
 def decSCell (s : String) : Option SCell :=
